@@ -173,6 +173,9 @@ func (s *Server) followCheckSome(addr string, followc int, auth string,
 	if int(s.followc.Load()) != followc {
 		return 0, errNoLongerFollowing
 	}
+	// Everything below reads, compares and possibly truncates the file:
+	// commands still waiting in the log buffer belong in front of that.
+	s.flushAOF(false)
 	if s.aofsz < checksumsz {
 		// too small to compare, start over from the leader's first command
 		if s.aofsz == 0 {
